@@ -175,6 +175,9 @@ def e2e(ctx):
         os.environ["HOME"] = tmp
         for i in range(n):
             e2e_case(ctx, i, tmp)
+        # the aimed small trees (trees.aimed_small), each through the four routes
+        for j in range(trees.N_AIMED * 4):
+            e2e_case(ctx, trees.AIMED0 + j, tmp)
         # payloads at scale (harness/scale.py): piece lengths 2 .. 16 MiB, file sizes aimed at 1 / 4 / 8 MiB read windows
         for j in range(len(scale.templates()) if ctx.tier == "quick" else 40):
             e2e_case(ctx, SCALE0 + j, tmp)
@@ -187,6 +190,9 @@ def e2e_case(ctx, i, tmp):
     state = rng_state(ctx.rng)
     if i >= SCALE0:
         pl, ltree, cl = scale.gen(ctx.rng, i - SCALE0)
+    elif i >= trees.AIMED0:
+        pl = ctx.rng.choice([16384, 32768])
+        ltree, cl = trees.aimed_small(i - trees.AIMED0, ctx.rng, pl)       # structural shapes that must not depend on luck
     else:
         pl = ctx.rng.choice([16384, 16384, 32768, 65536])
         ltree, cl = trees.gen_tree(ctx.rng, pl)
